@@ -129,6 +129,14 @@ func zzArrange(v *zzverif.T, opType string, attrs []*onnx.AttributeProto) []*onn
 // GetOperator -> Init -> ValidateInputs -> Apply.
 func zzRun(v *zzverif.T, opType string, attrs []*onnx.AttributeProto, inputs []tensor.Tensor) zzResult {
 	var r zzResult
+	// every operand is the caller's: whatever the operator does with it, it is left as it was (each harness
+	// checks the operands it cares about; this covers the others - slopes, biases, states, index tensors)
+	snaps := make([]*zzverif.Snap, len(inputs))
+	for i, t := range inputs {
+		if t != nil {
+			snaps[i] = v.Snapshot(t)
+		}
+	}
 	r.Panicked = v.Try(func() {
 		op, err := GetOperator(opType)
 		if err != nil {
@@ -137,6 +145,13 @@ func zzRun(v *zzverif.T, opType string, attrs []*onnx.AttributeProto, inputs []t
 		}
 		r = zzRunOn(op, opType, zzArrange(v, opType, attrs), inputs)
 	})
+	if !r.Panicked {
+		for i, t := range inputs {
+			if t != nil {
+				v.AssertUnchanged("operand-left-as-it-was:"+opType, t, snaps[i])
+			}
+		}
+	}
 	return r
 }
 
